@@ -410,9 +410,13 @@ impl LpgStore {
             index[label_id as usize].insert(id, ());
         }
 
+        #[cfg(grafeo_verif)]
+        grafeo_common::verif::sched_point("lpg.create_node.labels_indexed");
         // Store node's labels
         self.node_labels.write().insert(id, node_label_set);
 
+        #[cfg(grafeo_verif)]
+        grafeo_common::verif::sched_point("lpg.create_node.before_publish");
         // Create version chain with initial version
         let chain = VersionChain::with_initial(record, epoch, tx_id);
         self.nodes.write().insert(id, chain);
@@ -891,6 +895,8 @@ impl LpgStore {
         // Update property index before setting the property (needs to read old value)
         self.update_property_index_on_set(id, &prop_key, &value);
 
+        #[cfg(grafeo_verif)]
+        grafeo_common::verif::sched_point("lpg.set_node_property.after_index");
         self.node_properties.set(id, prop_key, value);
 
         // Update props_count in record
@@ -1954,6 +1960,8 @@ impl LpgStore {
 
             drop(edges); // Release lock
 
+            #[cfg(grafeo_verif)]
+            grafeo_common::verif::sched_point("lpg.delete_edge.before_adjacency");
             // Mark as deleted in adjacency (soft delete)
             self.forward_adj.mark_deleted(src, id);
             if let Some(ref backward) = self.backward_adj {
